@@ -5,7 +5,7 @@
     All theorems quantify over ARBITRARY op lists from the initial state whose
     execution respects the calling protocol ([exec] returns [Some]). *)
 From Coq Require Import List Arith Bool PeanoNat Permutation.
-From Celer Require Import C02.TrackInit C02.ListLemmas C02.InvA C02.InvA2 C02.InvB C02.TrackInitProofs C02.Parents C02.Drain C02.Examples.
+From Celer Require Import C02.TrackInit C02.ListLemmas C02.InvA C02.InvA2 C02.InvB C02.TrackInitProofs C02.Parents C02.Drain C02.Examples C02.DrainGen C02.DrainExamples C02.InitData C02.InitDataProofs C02.InitExamples C02.Refine C02.ResetRefine.
 Import ListNotations.
 
 Theorem C02_counters_vacancies_exact : forall cfg ops s,
@@ -176,3 +176,104 @@ Theorem C02_drain_terminates_kill_all_partial : forall cfg ops s,
                drained s' = true /\ c_init (cnt s') = 0 /\ c_alive (cnt s') = 0 /\ ph s' = Ready.
 Proof. exact drain_kill_all. Qed.
 Print Assumptions C02_drain_terminates_kill_all_partial.
+
+(** drain_terminates, general form (coq/C02/DrainGen.v).  [G k i t] is an
+    arbitrary adaptive outcome strategy (iteration, slot, track -> dies? which
+    secondaries?); it is [finitely_productive] w.r.t. a potential [W] when [W]
+    never grows while a track waits and every step pays one unit:
+    W' (track if it survives) + sum of W' over the emitted non-null secondaries
+    + 1 <= W (track).  [loop] runs initialize-tracks / physics / extend-from-
+    secondaries until [drained]; its ledger records every initializer popped and
+    pushed.  From ANY reachable Ready state the loop ends within [potential]
+    iterations, either drained (alive = queued = 0, nothing in flight, every
+    initializer that was queued or pushed has been popped exactly once:
+    popped = queued ++ pushed as multisets, and no (event, track id) occurs
+    twice among queued ++ pushed) or with the capacity error reported (only possible if
+    the capacity is below the potential); the end state is again reachable, so
+    every other theorem applies to it. *)
+Theorem C02_drain_terminates : forall cfg ops s G W k,
+  exec cfg (init_state cfg) ops = Some s -> ph s = Ready -> 1 <= n_slots cfg ->
+  finitely_productive G W ->
+  match loop cfg G k (potential W k s) s (mkL [] [] 0) with
+  | Drained s' L =>
+    l_iters L <= potential W k s /\
+    ph s' = Ready /\ drained s' = true /\ c_init (cnt s') = 0 /\ c_alive (cnt s') = 0 /\ all_tracks s' = [] /\
+    Permutation (l_popped L) (stack s ++ l_pushed L) /\ NoDup (map key (stack s ++ l_pushed L)) /\
+    exists ops', exec cfg (init_state cfg) ops' = Some s'
+  | CapError s' L =>
+    l_iters L <= potential W k s /\
+    ph s' = Failed /\ capacity cfg < c_init (cnt s') /\ capacity cfg < potential W k s /\
+    exists ops', exec cfg (init_state cfg) ops' = Some s'
+  | _ => False
+  end.
+Proof. exact drain_terminates. Qed.
+Print Assumptions C02_drain_terminates.
+
+(** ... and for capacities that are not exceeded the loop drains *)
+Theorem C02_drain_terminates_ample : forall cfg ops s G W k,
+  exec cfg (init_state cfg) ops = Some s -> ph s = Ready -> 1 <= n_slots cfg ->
+  finitely_productive G W -> potential W k s <= capacity cfg ->
+  exists s' L, loop cfg G k (potential W k s) s (mkL [] [] 0) = Drained s' L /\
+    l_iters L <= potential W k s /\
+    ph s' = Ready /\ drained s' = true /\ c_init (cnt s') = 0 /\ c_alive (cnt s') = 0 /\ all_tracks s' = [] /\
+    Permutation (l_popped L) (stack s ++ l_pushed L) /\ NoDup (map key (stack s ++ l_pushed L)) /\
+    exists ops', exec cfg (init_state cfg) ops' = Some s'.
+Proof. exact drain_terminates_ample. Qed.
+Print Assumptions C02_drain_terminates_ample.
+
+(** the freshly constructed state (coq/C02/InitData.v: CoreState constructor,
+    TrackInitData.hh [resize], [operator bool]s): for EVERY (slots, capacity,
+    events, order) construction fails (RuntimeError) iff slots = 0; otherwise
+    the state is [init_state] -- the start of every theorem above --, satisfies
+    all invariants, is drained, every collection has the size the actions rely
+    on, and the CELER_ENSURE on the data (compiled out) holds iff the parameters are
+    assigned (capacity > 0 and max_events > 0) *)
+Theorem C02_construct_state_ok : forall cfg,
+  (construct_state cfg = None <-> n_slots cfg = 0) /\
+  (forall s d, construct_state cfg = Some (s, d) ->
+     s = init_state cfg /\ d = resize_init_data cfg /\
+     InvA cfg s /\ InvB cfg s /\ all_tracks s = [] /\ drained s = true /\
+     length (d_parents d) = n_slots cfg /\ length (d_vacancies d) = n_slots cfg /\
+     length (d_secondary_counts d) = n_slots cfg + 1 /\
+     length (d_indices d) = (if charge_order cfg then n_slots cfg else 0) /\
+     length (d_track_counters d) = n_events cfg /\ d_initializers d = capacity cfg /\
+     (data_assigned d = true <-> params_assigned cfg = true)).
+Proof. exact construct_state_ok. Qed.
+Print Assumptions C02_construct_state_ok.
+
+(** the sizes chosen by [resize] suffice in every reachable state: the
+    partition of initialize-tracks needs at most [size] indices, the scan of
+    extend-from-secondaries exactly [size + 1] counts, live vacancies and
+    queued initializers stay within their storage *)
+Theorem C02_resize_sizes_suffice : forall cfg ops s,
+  exec cfg (init_state cfg) ops = Some s -> ph s <> Failed ->
+  let d := resize_init_data cfg in
+  Nat.min (c_vac (cnt s)) (c_init (cnt s)) <= length (d_vacancies d) /\
+  (charge_order cfg = true -> Nat.min (c_vac (cnt s)) (c_init (cnt s)) <= length (d_indices d)) /\
+  length (fst (exclusive_scan 0 (map snd (locate_all (charge_order cfg) 0 (slots s))))) + 1
+    = length (d_secondary_counts d) /\
+  c_vac (cnt s) <= length (d_vacancies d) /\
+  length (parents s) = length (d_parents d) /\
+  length (next_id s) = length (d_track_counters d) /\
+  c_init (cnt s) <= d_initializers d.
+Proof. exact resize_sizes_suffice. Qed.
+Print Assumptions C02_resize_sizes_suffice.
+
+(** reset_then_run_ok as a refinement (coq/C02/Refine.v, ResetRefine.v): from
+    ANY reachable state (in particular right after a capacity error), after
+    [reset] every continuation that follows the Stepper protocol
+    ([stepper_protocol]: initialize-tracks .. extend-from-secondaries only after
+    the primaries action has run since the reset) yields op by op the same
+    result kinds and observably equal states ([state_rel false]: stack,
+    vacancies, counters, track counters, statuses, tracks of occupied slots,
+    secondaries at extend-from-secondaries) as on the freshly constructed state
+    with the same track counters; stale slot data and the stale parents array
+    are never observed.  With zeroed counters that state is [init_state]. *)
+Theorem C02_reset_refines_fresh : forall cfg ops s s1 ops',
+  exec cfg (init_state cfg) ops = Some s -> reset cfg s = Ok s1 ->
+  stepper_protocol false ops' = true ->
+  state_rel false s1 (fresh_with cfg (next_id s)) /\
+  Forall2 res_obs (run cfg s1 ops') (run cfg (fresh_with cfg (next_id s)) ops') /\
+  fresh_with cfg (repeat 0 (n_events cfg)) = init_state cfg.
+Proof. exact reset_refines_fresh. Qed.
+Print Assumptions C02_reset_refines_fresh.
